@@ -237,6 +237,9 @@ def generate(tier, seed):
     nfiles = 90 if tier == "quick" else 6000
     for k in range(nfiles):
         cases.append({"kind": "files", "k": k})
+    for k in range(1, 13 if tier == "quick" else 41):
+        for cmd in ("lint", "lint-file", "spdx", "lint-pool"):
+            cases.append({"kind": "touch-vanish", "k": k, "cmd": cmd, "dir": k % 3 == 0})
     for k in range(12 if tier == "quick" else 200):
         cases.append({"kind": "licenses", "k": k})
     for k in range(8 if tier == "quick" else 100):
@@ -319,6 +322,21 @@ def run_case(case, ctx):
                 judge(res, run_command(cmd, root), cls, fault, cmd, names, detail=bytes(data).decode("utf-8", "replace")[:400])
                 res.sigs.add(short_hash(fault, cmd))
             res.cell("flip-class:" + cls)
+        elif kind == "touch-vanish":
+            # crash-point enumeration: the covered file disappears right after the K-th time the tool looks at it
+            from ..monitors import TouchFault
+
+            victim = root / "sub" / "victim.py"
+            victim.write_text("# SPDX-License-Identifier: MIT\n# SPDX-FileCopyrightText: 2020 V\n")
+            with TouchFault(victim, case["k"], becomes_dir=case["dir"]) as tf:
+                r = run_command(case["cmd"], root, target="sub/victim.py")
+            fault = f"file vanishes after touch {case['k']}" + (" (becomes a directory)" if case["dir"] else "")
+            judge(res, r, "grey", fault, case["cmd"], allowed=(0, 1) if case["cmd"] != "lint-file" else (0, 1, 2))
+            if tf.fired:
+                res.sigs.add(short_hash("touch", case["k"], case["cmd"], case["dir"]))
+                res.cell("touch-fault-fired")
+            else:
+                res.cell("touch-fault-not-reached")
         elif kind == "files":
             run_files(case, ctx, res, root)
         elif kind == "licenses":
